@@ -28,9 +28,7 @@ def validIdent (s : String) : Bool :=
   | [] => false
   | c :: cs => isIdentStart c && cs.all isIdentChar && !goKeywords.contains s
 
-def nodupB : List String → Bool
-  | [] => true
-  | x :: xs => !xs.contains x && nodupB xs
+def nodupB (l : List String) : Bool := decide l.Nodup
 
 def declIdents : GoDecl → List String
   | .typeDef n _ | .alias n _ | .const n _ | .ctor n _ _ => [n]
@@ -49,9 +47,13 @@ def declTypeName : GoDecl → Option String
   | .typeDef n _ | .alias n _ | .enumDef n _ _ => some n
   | _ => none
 
-def findType (n : String) : List GoDecl → Option GoDecl
+/-- the first declaration satisfying `P` -/
+def findDecl (P : GoDecl → Bool) : List GoDecl → Option GoDecl
   | [] => none
-  | d :: ds => if declTypeName d == some n then some d else findType n ds
+  | d :: ds => if P d then some d else findDecl P ds
+
+def declaresType (n : String) (d : GoDecl) : Bool := declTypeName d == some n
+def findType (n : String) (ds : List GoDecl) : Option GoDecl := findDecl (declaresType n) ds
 
 def pkgDecls (p : String) : Env → List GoDecl
   | [] => []
@@ -59,21 +61,30 @@ def pkgDecls (p : String) : Env → List GoDecl
 
 def lookupType (env : Env) (p n : String) : Option GoDecl := findType n (pkgDecls p env)
 
-def findCtor (n : String) : List GoDecl → Option String
-  | [] => none
-  | .ctor m r _ :: ds => if m == n then some r else findCtor n ds
-  | _ :: ds => findCtor n ds
+def isCtorNamed (n : String) : GoDecl → Bool
+  | .ctor m _ _ => m == n
+  | _ => false
+
+def findCtor (n : String) (ds : List GoDecl) : Option String :=
+  match findDecl (isCtorNamed n) ds with
+  | some (.ctor _ r _) => some r
+  | _ => none
 
 /-- what a package-level value identifier denotes -/
 inductive ValueDecl where
   | constant (v : GoExpr)
   | member (enumName : String)
 
-def findValue (n : String) : List GoDecl → Option ValueDecl
-  | [] => none
-  | .const m v :: ds => if m == n then some (.constant v) else findValue n ds
-  | .enumDef e _ ms :: ds => if ms.any (·.1 == n) then some (.member e) else findValue n ds
-  | _ :: ds => findValue n ds
+def declaresValue (n : String) : GoDecl → Bool
+  | .const m _ => m == n
+  | .enumDef _ _ ms => ms.any (·.1 == n)
+  | _ => false
+
+def findValue (n : String) (ds : List GoDecl) : Option ValueDecl :=
+  match findDecl (declaresValue n) ds with
+  | some (.const _ v) => some (.constant v)
+  | some (.enumDef e _ _) => some (.member e)
+  | _ => none
 
 /-- packages provided by the generated runtime (not part of the declaration fragment) -/
 def externalPkgs : List String := ["variants", "cog"]
@@ -134,6 +145,7 @@ def headAlias (env : Env) : Nat → String → String → GoTy
 
 /-- aliases expanded at the head and below pointers, slices and maps (identity of types) -/
 def norm (env : Env) (fuel : Nat) : GoTy → GoTy
+  | .prim n => if n == "any" then .prim "interface{}" else .prim n     -- `any` is an alias of `interface{}`
   | .named p n => headAlias env fuel p n
   | .ptr t => .ptr (norm env fuel t)
   | .slice t => .slice (norm env fuel t)
@@ -356,12 +368,14 @@ def envDeclCount : Env → Nat
   | [] => 0
   | (_, ds) :: rest => ds.length + envDeclCount rest
 
-def pkgsOk (env full : Env) (fuel : Nat) : Env → Bool
+def pkgsOk (full : Env) (fuel : Nat) : Env → Bool
   | [] => true
-  | (p, ds) :: rest => namesOk ds && declsOk full fuel p ds && pkgsOk env full fuel rest
+  | (p, ds) :: rest => namesOk ds && declsOk full fuel p ds && pkgsOk full fuel rest
 
 /-- the checker -/
-def wellTyped (env : Env) : Bool := pkgsOk env env (envDeclCount env + 1) env
+def checkFuel (env : Env) : Nat := envDeclCount env + 3
+
+def wellTyped (env : Env) : Bool := pkgsOk env (checkFuel env) env
 
 /-! ## diagnosis (driver side: names the first offending declaration) -/
 
@@ -393,7 +407,7 @@ def diagnoseDecls (env : Env) (fuel : Nat) (pkg : String) : List GoDecl → Opti
 
 def diagnosePkg (env : Env) (pkg : String) : Option String :=
   let ds := pkgDecls pkg env
-  let fuel := envDeclCount env + 1
+  let fuel := checkFuel env
   match (declsIdents ds).find? (fun s => !validIdent s) with
   | some bad => some ("<ident>:invalid-identifier:" ++ bad)
   | none =>
